@@ -80,8 +80,12 @@ func PathSegment(style string, explode bool, name string, v any) (string, error)
 		case "simple":
 			return strings.Join(it, ","), nil
 		case "label":
-			// 3.0.3 table: ".blue.black.brown" for both explode values
-			return "." + strings.Join(it, "."), nil
+			// RFC 6570 (the normative basis of the style table; the 3.0.3 table's ".blue.black.brown"
+			// for explode=false was corrected in later patch releases): {.list} -> ".a,b", {.list*} -> ".a.b"
+			if explode {
+				return "." + strings.Join(it, "."), nil
+			}
+			return "." + strings.Join(it, ","), nil
 		case "matrix":
 			if explode {
 				parts := make([]string, len(it))
@@ -104,7 +108,7 @@ func PathSegment(style string, explode bool, name string, v any) (string, error)
 			if explode {
 				return "." + flat(ps, "=", "."), nil
 			}
-			return "." + flat(ps, ".", "."), nil
+			return "." + flat(ps, ",", ","), nil // RFC 6570 {.keys} -> ".k1,v1,k2,v2"
 		case "matrix":
 			if explode {
 				return ";" + flat(ps, "=", ";"), nil
